@@ -380,6 +380,13 @@ def run_termination_stage(prop, report, tier, seed, replay=None):
     runs (tasks queued behind a single worker included); only non-termination is judged here (the rest is C14)."""
     rng = rng_for(seed, prop, 'intr-termination')
     cases = []
+    if replay is not None and replay['input'].get('level') == 'line-hang':
+        inp = replay['input']
+        obs, inj = run_lines(inp['case'], inp['line_event'], 'l2')
+        if obs['outcome'] == 'hang':
+            report.violation('C11:no-termination', f"after a KeyboardInterrupt at {inj.where} run_tasks neither returned nor raised: {obs.get('exc')}", inp)
+        report.coverage.update(evaluations=1, distinct_nontrivial=1, rule='replay', distribution={})
+        return
     if replay is not None:
         cases = [(replay['input']['case'], [replay['input']['k1']])]
     else:
@@ -392,13 +399,6 @@ def run_termination_stage(prop, report, tier, seed, replay=None):
             base_obs, _, ticker, _ = I.run_interrupt(case, None, None)
             cases.append((case, list(range(ticker.n))))
     runs = 0
-    if replay is not None and replay['input'].get('level') == 'line-hang':
-        inp = replay['input']
-        obs, inj = run_lines(inp['case'], inp['line_event'], 'l2')
-        if obs['outcome'] == 'hang':
-            report.violation('C11:no-termination', f"after a KeyboardInterrupt at {inj.where} run_tasks neither returned nor raised: {obs.get('exc')}", inp)
-        report.coverage.update(evaluations=1, distinct_nontrivial=1, rule='replay', distribution={})
-        return
     line_runs = 0
     if replay is None:
         # ... and one at every line boundary of the executor's worker launch (queued tasks are launched from inside wait(): a future
